@@ -39,6 +39,7 @@ int main() {
             else if (op == "clear") { reg[args[0]].clear(); }
             else if (op == "selfassign") { Vec &self = reg[args[0]]; reg[args[0]] = self; }
             else if (op == "selfplus") { reg[args[0]] += reg[args[0]]; }
+            else if (op == "add") { reg[args[0]].add(args[1]); }
         }
         std::cout << "{\"regs\":[";
         for (int r = 0; r < 3; r++) {
